@@ -1717,7 +1717,7 @@ def check_plans(ctx, I, n):
         pt = PyTorchSTFTFrameComputer.from_stft_frame_computer(comp)
         L, S = comp.frame_length, comp.frame_shift
         ns = {0, 1, L // 2 - 1, L // 2, L // 2 + 1, (L + 1) // 2, L - 1, L, L + 1, (3 * L) // 5, (3 * L) // 5 + 1, 2 * L}
-        while len(ns) < per:
+        while len(ns) < min(per, 3 * L):
             ns.add(r.randint(0, 3 * L))
         for N in sorted(ns):
             if N < 0:
@@ -1816,10 +1816,14 @@ def run(ctx):
     ctx.can_eval = can_eval
     check_regressions(ctx, I)
     check_plans(ctx, I, ctx.scale(300, 3000))
-    check_kaldi(ctx, I, ctx.scale(100, 1500))
-    check_torch(ctx, I, ctx.scale(100, 1500))
-    check_kaldi_entry(ctx, I, ctx.scale(45, 500))
-    check_torch_entry(ctx, I, ctx.scale(45, 500))
+    ctx.log("framing plans compared")
+    check_kaldi(ctx, I, ctx.scale(100, 1000))
+    ctx.log("compute-feats-from-kaldi-tables: loop cases done")
+    check_torch(ctx, I, ctx.scale(100, 1000))
+    ctx.log("signals-to-torch-feat-dir: loop cases done")
+    check_kaldi_entry(ctx, I, ctx.scale(45, 450))
+    check_torch_entry(ctx, I, ctx.scale(45, 450))
+    ctx.log("entry-point cases done")
     if pr is not None and not pr["ok"] and not [f for f in ctx.failures if not f["no_input"]]:
         ctx.log("search found no failing input on the implementation")
     ctx.assumptions += [
